@@ -333,6 +333,32 @@ def monitor_outcome(res, profile, m_expected, rule):
     return fails
 
 
+def score_class_failures(e, rounds="first"):
+    """'candidates of equal score are reported as tied, in descending score order': in a round that records no
+    tiebreak and reports scores, the remaining groups must be exactly the classes of equal score, highest first.
+    rounds='first' checks round 0 only (true of every rule that scores its initial profile); 'all' checks every
+    round (true of the STV family, whose every round re-ranks the hopeful candidates by their tallies)."""
+    fails = []
+    states = e.election_states if rounds == "all" else e.election_states[:1]
+    for s in states:
+        if not s.scores or getattr(s, "tiebreaks", None):
+            continue
+        groups = [g for g in s.remaining if len(g)]
+        listed = [c for g in groups for c in g]
+        if any(c not in s.scores for c in listed):
+            continue
+        classes = {}
+        for c in listed:
+            classes.setdefault(Fraction(s.scores[c]), set()).add(c)
+        want = [classes[v] for v in sorted(classes, reverse=True)]
+        if [set(g) for g in groups] != want:
+            fails.append({"name": "remaining-not-score-classes",
+                          "detail": f"round {s.round_number}: remaining {[sorted(g) for g in groups]} but the classes of equal "
+                                    f"score, highest first, are {[sorted(g) for g in want]} (scores {dict(s.scores)})"})
+            break
+    return fails
+
+
 def compare_states(model, expect):
     """model answer vs. implementation: states (and threshold where both report one)"""
     if "ok" in model and "ok" in expect:
